@@ -50,6 +50,17 @@ partial def parseRe (cs : Array Char) (i : Nat) : Regex × Nat :=
   | 'K' | 'P' | 'O' =>
     let (a, j) := parseRe cs (i + 1)
     ((match c with | 'K' => .star a | 'P' => plus a | _ => opt a), j + 1)
+  | 'U' =>
+    -- Unicode property class; the ranges are exact on the code points the explorer ever puts into an
+    -- input (ASCII, é É λ Λ, 😀), which is all the comparison needs
+    let j := takeWhileIdx cs i (fun c => c != '.')
+    let rs : List (Nat × Nat) := match strOf cs i j with
+      | "L" => [(65, 90), (97, 122), (0xc9, 0xc9), (0xe9, 0xe9), (0x39b, 0x39b), (0x3bb, 0x3bb)]
+      | "Lu" => [(65, 90), (0xc9, 0xc9), (0x39b, 0x39b)]
+      | "Ll" => [(97, 122), (0xe9, 0xe9), (0x3bb, 0x3bb)]
+      | "Nd" => [(48, 57)]
+      | _ => [(0x21, 0x23), (0x25, 0x2a), (0x2c, 0x2f), (0x3a, 0x3b), (0x3f, 0x40), (0x5b, 0x5d), (0x5f, 0x5f), (0x7b, 0x7b), (0x7d, 0x7d)]
+    (.cls rs false, j + 1)
   | 'R' =>
     let j := takeWhileIdx cs i Char.isDigit
     let m := (strOf cs i j).toNat!
@@ -68,6 +79,7 @@ structure SetInfo where
   masks : List Nat := []
   follow : Option (Nat × Nat) := none
   reserved : List Nat := []
+  reservedB : Option (List Nat) := none   -- `reserved('alt', word)` in mode B
   kws : List Nat := []
   ambig : List Nat := []
   deriving Inhabited
@@ -208,14 +220,16 @@ def parseModeSet (id spec : String) : SetInfo :=
       | [a, b] => match a.toNat?, b.toNat? with | some x, some y => some (x, y) | _, _ => none
       | _ => none
     let word := wpart.toNat?
+    let (rpart, qpart) := match rpart.splitOn "q" with | [a, b] => (a, some b) | _ => (rpart, none)
     let reserved := (rpart.splitOn ".").filterMap (·.toNat?)
+    let reservedB := qpart.map (fun q => (q.splitOn ".").filterMap (·.toNat?))
     let toks := rest.map (fun t => match t.splitOn "," with
       | p :: s :: mask :: ast =>
         let cs := (",".intercalate ast).toList.toArray
         let base := (parseRe cs 0).1
         (({ re := (if natOf s / 4 % 2 == 1 then foldCase base else base), prec := p.toInt?.getD 0, isString := natOf s % 2 == 1 } : Token), natOf mask)
       | _ => (default, 0))
-    { id := id, toks := toks.map (·.1), masks := toks.map (·.2), follow := follow, texts := [], word := word, reserved := reserved, extras := extras }
+    { id := id, toks := toks.map (·.1), masks := toks.map (·.2), follow := follow, texts := [], word := word, reserved := reserved, reservedB := reservedB, extras := extras }
   | _ => {}
 
 /-- grammar-level automaton of a two-mode grammar: mode 0 = before any marker, 1 = A, 2 = B;
@@ -242,12 +256,12 @@ def gStep (si : SetInfo) (st : AState) (t : Nat) : AState :=
 main lexer over the non-keyword tokens of `vs ∪ reserved` plus the word token when a keyword or the word
 itself is among them; when it returns the word token the keyword lexer (ALL keywords) runs from the same
 start and its answer replaces the word token when it covers the whole word and is valid or reserved. -/
-def stateChoose (si : SetInfo) (vs : List Nat) (useRef : Bool) (inp : List Nat) : Option Cand :=
+def stateChoose (si : SetInfo) (vs : List Nat) (useRef : Bool) (inp : List Nat) (mode : Nat := 0) : Option Cand :=
   let pickWith (v : Nat → Bool) : Option Cand := if useRef then refToken si.toks v inp else lexScan si.toks v inp
   match si.word with
   | none => pickWith (fun i => vs.contains i)
   | some w =>
-    let res := if vs.contains w then si.reserved else []
+    let res := if vs.contains w then (if mode == 2 then si.reservedB.getD si.reserved else si.reserved) else []
     let base := vs ++ res
     let mainSet : Nat → Bool := fun i =>
       (base.contains i && !si.kws.contains i) || (i == w && (vs.contains w || base.any (fun k => si.kws.contains k)))
@@ -256,11 +270,11 @@ def stateChoose (si : SetInfo) (vs : List Nat) (useRef : Bool) (inp : List Nat) 
 
 /-- kind of a deviation between scan and documented order in one parse state: compared at the level of the
 main lexers, and when both return the word token, of the keyword lexers -/
-def classifyState (si : SetInfo) (vs : List Nat) (inp : List Nat) : String :=
+def classifyState (si : SetInfo) (vs : List Nat) (inp : List Nat) (mode : Nat := 0) : String :=
   match si.word with
   | none => classify si (stateChoose si vs false inp) (stateChoose si vs true inp)
   | some w =>
-    let res := if vs.contains w then si.reserved else []
+    let res := if vs.contains w then (if mode == 2 then si.reservedB.getD si.reserved else si.reserved) else []
     let base := vs ++ res
     let mainSet : Nat → Bool := fun i =>
       (base.contains i && !si.kws.contains i) || (i == w && (vs.contains w || base.any (fun k => si.kws.contains k)))
@@ -283,7 +297,7 @@ partial def autoRun (si : SetInfo) (useRef : Bool) (input : List Nat) (pos : Nat
   if inp.isEmpty then some acc else
   let off := rest.length - inp.length
   let vs := gValid si st
-  match stateChoose si vs useRef inp with
+  match stateChoose si vs useRef inp st.mode with
   | none => none
   | some (t, n) => if n == 0 || !vs.contains t then none else
     autoRun si useRef input (pos + off + n) (gStep si st t) (acc.push (t, pos + off, pos + off + n))
@@ -296,9 +310,9 @@ partial def autoDiffKind (si : SetInfo) (input : List Nat) (pos : Nat) (st : ASt
   if inp.isEmpty then "other" else
   let off := rest.length - inp.length
   let vs := gValid si st
-  let a := stateChoose si vs false inp
-  let b := stateChoose si vs true inp
-  if a != b then classifyState si vs inp else
+  let a := stateChoose si vs false inp st.mode
+  let b := stateChoose si vs true inp st.mode
+  if a != b then classifyState si vs inp st.mode else
   match a with
   | some (t, n) => if n == 0 then "other" else autoDiffKind si input (pos + off + n) (gStep si st t)
   | none => "other"
@@ -343,7 +357,7 @@ def evalEvents (si : SetInfo) (valid : Array (List Nat)) (cps : String) (input :
       let inp := skipExtras isExtra rest
       let off := rest.length - inp.length
       let vs := valid.getD state []
-      let scan := stateChoose si vs false inp
+      let scan := stateChoose si vs false inp st.mode
       let real : Option Cand := if tok < 100000 && pos + off ≤ en then some (tok, en - pos - off) else none
       a := { a with leaves := a.leaves + 1 }
       if ((candidates si.toks (fun _ => true) inp).any (fun c => !vs.contains c.1)) then a := { a with ctx := a.ctx + 1 }
